@@ -840,6 +840,18 @@ func (pr *printer) source() string {
 	if p.Bare {
 		b.WriteString("\tx.SetPoison(func() {\n" + pr.poison.String() + "\t})\n")
 	}
+	if p.PadLines && !p.LineDirs {
+		// the directive's first line becomes line 98 (or 998): its arguments
+		// straddle a change in the number of digits of the line number
+		cur := strings.Count(b.String(), "\n") + 1
+		target := 98
+		if cur > target {
+			target = 998
+		}
+		for ; cur < target; cur++ {
+			b.WriteString("\t// padding\n")
+		}
+	}
 	fmt.Fprintf(&b, "\trerr = cff.%s(%s,\n", directive, ctxExpr)
 	for i, o := range opts {
 		if p.LineDirs {
